@@ -146,6 +146,12 @@ class MapEngine:
             if op["op"] == "group" and tgt == "folder":
                 op["op"] = "load_group"
             ops.append(op)
+        if rng.random() < 0.4:
+            ops.append({"op": "paths_enum",
+                        "corrupt": rng.choice([None, "aa", "zz", "mm"]),
+                        "skip_errors": rng.random() < 0.8})
+        if rng.random() < 0.3:
+            ops.append({"op": "append_same_path"})
         if rng.random() < 0.5:
             # append a curve without spring constant / tip position to a
             # populated group: must be refused and leave the group alone
@@ -430,6 +436,107 @@ class MapEngine:
                             break
                         log.append({"i": i, "op": kind, "n": len(g),
                                     "cb": cb})
+                    elif kind == "paths_enum":
+                        import nanite.read as nread
+                        # a listing of (path, enum) for every curve; a file
+                        # that cannot be read is skipped on request
+                        extra = None
+                        if op.get("corrupt"):
+                            # a tab-separated export whose last row breaks
+                            # off in the middle of a number: accepted by
+                            # afmformats.find_data, rejected when loaded
+                            tmp = scratch / "export_src.tab"
+                            curves.make_curve(
+                                {"kind": "synthetic", "model": "hertz_para",
+                                 "n": 40, "noise": 0.0, "seed": 1,
+                                 "path": str(tmp)}).export_data(tmp,
+                                                                fmt="tab")
+                            rows = tmp.read_text().rstrip("\n").split("\n")
+                            extra = folder / f"{op['corrupt']}_broken.tab"
+                            extra.write_text(
+                                "\n".join(rows[:-1]) + "\n"
+                                + rows[-1][:len(rows[-1]) // 2] + "e-\n")
+                        files = [pathlib.Path(x) for x in
+                                 afmformats.find_data(
+                                     folder, modality="force-distance")]
+                        exp, bad = [], 0
+                        for fpath in files:
+                            try:
+                                for t in self.truth(fpath, None):
+                                    exp.append([pathlib.Path(fpath), t[0]])
+                            except _caught():
+                                bad += 1
+                        feats["unreadable_files"] = bad
+                        feats["skip_errors"] = bool(op.get("skip_errors"))
+                        oracle_checks += 1
+                        try:
+                            got = nread.get_data_paths_enum(
+                                folder, skip_errors=bool(
+                                    op.get("skip_errors")))
+                            exc = None
+                        except _caught() as e:
+                            got, exc = None, e
+                        finally:
+                            if extra is not None:
+                                extra.unlink()
+                        probes["path/enum listing compared"] += 1
+                        if bad and not op.get("skip_errors"):
+                            if exc is None:
+                                violation = viol(
+                                    "L1", "listing-ignored-unreadable-file",
+                                    feats, "an unreadable file did not "
+                                    "raise although skip_errors is off", i)
+                                break
+                        elif exc is not None:
+                            violation = viol(
+                                "L1", f"listing-raises:{type(exc).__name__}",
+                                feats, f"get_data_paths_enum raised "
+                                f"{type(exc).__name__}: {str(exc)[:120]}", i)
+                            break
+                        elif [[pathlib.Path(a), int(b)] for a, b in got] \
+                                != [[a, int(b)] for a, b in exp]:
+                            violation = viol(
+                                "L1", "listing-differs", feats,
+                                f"get_data_paths_enum lists {len(got)} "
+                                f"entries, the files hold {len(exp)} curves "
+                                f"(or in another order)", i)
+                            break
+                    elif kind == "append_same_path":
+                        # the same file once loaded with a spring constant
+                        # given as override, once without: the second curve
+                        # has neither spring constant nor tip position
+                        csvp = folder / "same_path.csv"
+                        shutil.copy(curves.DATA / RECORDED[4], csvp)
+                        try:
+                            g = nanite.IndentationGroup(
+                                csvp, meta_override={"spring constant":
+                                                     0.05})
+                            cand = afmformats.load_data(
+                                csvp, modality="force-distance",
+                                data_classes_by_modality={
+                                    "force-distance": nanite.Indentation})[0]
+                        except _caught():
+                            csvp.unlink()
+                            continue
+                        n0 = len(g)
+                        oracle_checks += 1
+                        try:
+                            g.append(cand)
+                            raised = False
+                        except MissingMetaDataError:
+                            raised = True
+                        csvp.unlink()
+                        has = ("spring constant" in cand.metadata
+                               or "tip position" in cand)
+                        probes["append of a curve sharing its path"] += 1
+                        if not has and (not raised or len(g) != n0):
+                            violation = viol(
+                                "L1", "accepted-without-spring-constant",
+                                dict(feats, same_path=True),
+                                "a curve with neither spring constant nor "
+                                "tip position was accepted because another "
+                                "curve of the same file is in the group", i)
+                            break
                     elif kind == "append_refused":
                         import afmformats
                         tp = paths[op["target"] % len(paths)]
@@ -685,8 +792,8 @@ class MapEngine:
         elif r["rating"] is not None and \
                 d.fit_properties.get("hash") != r.get("hash"):
             r["stale"] = True
-        elif r["rating"] is not None:
-            r["stale"] = False
+        # (once both answers are accepted for a rating it stays that way
+        # until the curve is rated again or re-preprocessed)
 
     def simplify_op(self, op):
         if op.get("meta_override"):
